@@ -201,7 +201,7 @@ def run(ctx, res):
         res.count('cli')
         import contextlib, io
         buf = io.StringIO()
-        with contextlib.redirect_stdout(buf), contextlib.redirect_stderr(buf):
+        with U.quiet(), contextlib.redirect_stdout(buf), contextlib.redirect_stderr(buf):
             rc = tool.main(['-q', 'luamin', cart])
             lua_src = os.path.join(ctx.tmp, 'cli%d.lua' % i)
             open(lua_src, 'wb').write(src)
